@@ -1,7 +1,8 @@
 (* C14: hash, math and string module functions compute their definitions.
    Model: Model/ModRange.v (range walker of the ten data functions, digest cache, crc32, checksum32,
    distribution/count/mode, integer math, strtoll / string.to_int); proofs: Proofs/ModRangeProofs.v.
-   [fixd] selects the loop's break condition: false = as in yara 4.5.2, true = the proposed repair. *)
+   [fixd] selects the loop's break condition: true = the current code (fix fc7cae9), false = yara 4.5.2 as pinned
+   (kept only for the `_refuted` witnesses). *)
 From Coq Require Import List NArith ZArith Bool.
 From YV Require Import Base.Bytes Base.CSem gen.GenConsts Model.ModRange Proofs.ModRangeProofs.
 Import ListNotations.
@@ -13,8 +14,9 @@ Theorem addressed_bytes_exact : forall fixd data off len,
 Proof. exact addressed_single. Qed.
 Print Assumptions addressed_bytes_exact.
 
-(* any partition of the data into non-empty contiguous blocks.  With the repaired break condition this is the
-   full statement; the 4.5.2 loop deviates exactly on zero-length ranges starting at an interior block start. *)
+(* any partition of the data into non-empty contiguous blocks.  For the current code (fixd = true) this is the
+   full statement (see addressed_bytes_exact_partition below); the pinned 4.5.2 loop deviated exactly on zero-length
+   ranges starting at an interior block start. *)
 Theorem addressed_bytes_exact_blocks : forall fixd base parts off len,
   nonempty_parts parts -> 0 <= base ->
   addressed fixd (blocks_of base parts) off len =
@@ -23,6 +25,14 @@ Theorem addressed_bytes_exact_blocks : forall fixd base parts off len,
 Proof. exact addressed_contiguous. Qed.
 Print Assumptions addressed_bytes_exact_blocks.
 
+(* the current code: every partition into non-empty contiguous blocks addresses exactly the range of the data *)
+Theorem addressed_bytes_exact_partition : forall base parts off len,
+  nonempty_parts parts -> 0 <= base ->
+  addressed true (blocks_of base parts) off len = range_spec base (concat parts) off len.
+Proof. exact (addressed_contiguous true). Qed.
+Print Assumptions addressed_bytes_exact_partition.
+
+(* pinned 4.5.2 variant *)
 Theorem addressed_bytes_exact_refuted :
   exists parts off len, nonempty_parts parts /\
     addressed false (blocks_of 0 parts) off len <> range_spec 0 (concat parts) off len /\
@@ -97,14 +107,15 @@ Theorem max_is_unsigned_max : forall i j, in64 i -> in64 j -> i <> YR_UNDEFINED 
 Proof. exact math_max_spec. Qed.
 Print Assumptions max_is_unsigned_max.
 
-Theorem abs_partial : forall i, in64 i -> i <> INT64_MIN -> i <> YR_UNDEFINED -> Z.abs i <> YR_UNDEFINED ->
-  math_abs i = Some (Z.abs i).
-Proof. exact math_abs_partial. Qed.
-Print Assumptions abs_partial.
+(* math.abs x = |x|, undefined exactly at INT64_MIN *)
+Theorem abs_exact : forall i, in64 i -> i <> YR_UNDEFINED ->
+  math_abs i = if i =? INT64_MIN then None else Some (Z.abs i).
+Proof. exact math_abs_exact. Qed.
+Print Assumptions abs_exact.
 
-Theorem abs_refuted : exists i, in64 i /\ i <> YR_UNDEFINED /\ math_abs i <> Some (Z.abs i).
-Proof. exact math_abs_refuted_lemma. Qed.
-Print Assumptions abs_refuted.
+Theorem abs_pinned_refuted : exists i, in64 i /\ i <> YR_UNDEFINED /\ math_abs_pinned i = Some INT64_MIN.
+Proof. exact math_abs_pinned_refuted_lemma. Qed.
+Print Assumptions abs_pinned_refuted.
 
 Theorem to_int_roundtrip_partial : forall z, in64 z -> z <> YR_UNDEFINED -> mod_to_int (print_dec z) = Some z.
 Proof. exact to_int_roundtrip_lemma. Qed.
